@@ -113,6 +113,32 @@ def nontrivial(case):
     return len(case["ord"]) >= 2 and any(s["k"] == "assert" for b in case["body"] for s in b)
 
 
+def recursive_runs(ucg, base, rep):
+    import subprocess
+    n = 0
+    for name, files, want in (("fail-in-subdirectory", {"good_test.ucg": True, "sub/bad_test.ucg": False}, 1),
+                              ("fail-at-the-top", {"bad_test.ucg": False, "sub/good_test.ucg": True}, 1),
+                              ("fail-two-levels-down", {"a_test.ucg": True, "s/t/bad_test.ucg": False, "s/ok_test.ucg": True}, 1),
+                              ("all-pass", {"a_test.ucg": True, "sub/b_test.ucg": True}, 0)):
+        d = os.path.join(base, "rec-" + name)
+        for rel, ok in files.items():
+            os.makedirs(os.path.dirname(os.path.join(d, rel)), exist_ok=True)
+            with open(os.path.join(d, rel), "w") as f:
+                f.write('assert {ok = %s, desc = "%s"};\n' % ("true" if ok else "false", rel))
+        home = os.path.join(d, ".home")
+        os.makedirs(home, exist_ok=True)
+        p = subprocess.run([ucg, "test", "-r", "."], cwd=d, env={"HOME": home, "PATH": "/usr/bin:/bin"},
+                           capture_output=True, timeout=60)
+        n += 1
+        out = p.stdout.decode("utf-8", "replace")
+        verdicts_ok = all(("%s - %s" % (rel.split("/")[-1], "PASS" if ok else "FAIL")) in out.replace("./", "")
+                          or ("%s - %s" % (rel, "PASS" if ok else "FAIL")) in out.replace("./", "") for rel, ok in files.items())
+        if p.returncode != want or not verdicts_ok:
+            rep.disagree({"leg": "recursive", "tree": files, "argv": ["ucg", "test", "-r", "."], "exit": p.returncode,
+                          "expected_exit": want, "stdout": out[-800:]}, key="recursive-run:" + name)
+    return n
+
+
 def main(tier, replay=None):
     t0 = time.time()
     rep = B.reporter(PID)
@@ -209,6 +235,9 @@ def main(tier, replay=None):
             tv_runs += info["runs"]
             tv_events += info["events"]
             states += info.get("states", 0)
+    # "The process exits non-zero exactly when some file failed" also when the files are found by `-r`: the verdicts
+    # of three small directory trees (a failing file at the top, in a sub-directory, nowhere)
+    ndir = recursive_runs(ucg, base, rep)
     code = rep.finish()
     shutil.rmtree(base, ignore_errors=True)
     if code == 0:
